@@ -187,14 +187,19 @@ Proof.
     2:{ intros x Hx. unfold blockof, leaf_block.
         assert (Hx0 : In x sl0) by (unfold sl0, src_list; apply in_flat_map; exists s; split; assumption).
         destruct (tile_leaf_spec M x (Hleaf x Hx0) (HMleaf x Hx0) H1M) as (_ & _ & -> & -> & _).
-        fold (fx x). reflexivity. }
-    rewrite sum_blocks_comprehension by (apply (Hsrc s Hs)).
+        reflexivity. }
+    change (sum_blocks (map (fun x => map (fun m => map (fun o => fx x m o) (pm m)) (seq 0 M)) (leaves s)) = 
+            map (fun m => [] ++ flat_map (fun p : sensor * sensor =>
+              map (fun o => vsum (map (fun x => fx x m o) (leaves s))) (sens_obs (snd p) m))
+              (combine sens sens')) (seq 0 M)).
+    rewrite (sum_blocks_comprehension fx (leaves s) pm M) by (apply (Hsrc s Hs)).
     apply map_ext. intros m. cbn [app]. unfold pm, poso_m. rewrite map_flat_map.
     unfold sens'. rewrite combine_map_r, flat_map_map. cbn [snd]. rewrite flat_map_map. reflexivity. }
   erewrite map_ext_in; [|intros s Hs; apply (Hblk s Hs)].
   (* sensor rotations *)
-  rewrite (rotate_sensors_rows P g_eqb flipx (combine sens sens') 0 srcs M (fun _ _ => [])
-             (fun p src m => map (fun o => vsum (map (fun x => fx x m o) (leaves src))) (sens_obs (snd p) m))).
+  pose proof (rotate_sensors_rows P g_eqb flipx (combine sens sens') 0 srcs M (fun _ _ => [])
+             (fun p src m => map (fun o => vsum (map (fun x => fx x m o) (leaves src))) (sens_obs (snd p) m))) as HR.
+  cbv beta in HR. unfold block in *. rewrite HR; clear HR.
   2:{ reflexivity. }
   2:{ intros p src m Hp. rewrite map_length. unfold sens_obs. apply map_length. }
   (* pixels *)
